@@ -9,7 +9,7 @@ def run(tier):
     c.assumptions = list(wsutil.WS_ASSUMPTIONS) + [
         "ORACLE at quiescence: read error / peer close => error reported (at most once) and closed-query answers (true, non-nil); write failure at the k-th write (if reached) likewise; local close => no error reported; no frame read after the closed flag was set is delivered; both pumps terminated, conn.Close() called, no writer blocked",
     ]
-    c.bounds = {"incoming_frames_max": 2 if tier == "thorough" else 1, "outgoing_messages": 2, "delay_bound": d, "fault_position": "k-th write, k symbolic in 1..2; read error after 0..n frames"}
+    c.bounds = {"incoming_frames_max": 2 if tier == "thorough" else 1, "outgoing_messages": 2, "delay_bound": d, "fault_position": "k-th data write, k symbolic in 1..2; the close frame of a local close; a PING after one ping period; read error after 0..n frames"}
     entries = ["H_C13_F1W2"] + (["H_C13_F2W2"] if tier == "thorough" else [])
     res, meta = lib.run_engine("ws", entries, sched="explore", preempt=d, cuts=wsutil.WS_CUTS, loop=40, paths=5000000)
     c.add_run("transport-loss", res, meta)
